@@ -153,7 +153,9 @@ ApplyEvaluate(m, e, step) ==
   LET m1 == [m EXCEPT !.phase = "offline", !.fed = e.w, !.emitted = e.ret] IN
   IF ~DenseOK(m.phi) THEN R(m1, ExcClass(FALSE, e, "evaluate.exc", step), 0)
   ELSE IF AnyUndef(m1, m.phi) THEN
-       (IF e.exc \in ArithExc \cup {NoExc} THEN R([m1 EXCEPT !.dead = TRUE], Ok, 1)
+       \* (an evaluate() that raised leaves the object as it was; one that returned NaN-poisoned values is not examined further)
+       (IF e.exc \in ArithExc THEN R(m, Ok, 1)
+        ELSE IF e.exc = NoExc THEN R([m1 EXCEPT !.dead = TRUE], Ok, 1)
         ELSE R([m1 EXCEPT !.dead = TRUE], F("evaluate.exc", step, "ok or arithmetic error", e.exc), 1))
   ELSE
     LET f0 == ExcClass(TRUE, e, "evaluate.exc", step)
